@@ -17,6 +17,7 @@ type FakeConn struct {
 	PeerEOF   bool   // Read returns io.EOF (peer closed)
 	ReadData  []byte // stream served by Read
 	Cuts      []int  // segment boundaries for Read (absolute offsets, increasing)
+	Remote    string // remote address (default 10.0.0.2:55555)
 	readPos   int
 }
 
@@ -69,8 +70,13 @@ func (c *FakeConn) Close() error {
 	return nil
 }
 
-func (c *FakeConn) LocalAddr() net.Addr                { return fakeAddr("10.0.0.1:4739") }
-func (c *FakeConn) RemoteAddr() net.Addr               { return fakeAddr("10.0.0.2:55555") }
+func (c *FakeConn) LocalAddr() net.Addr { return fakeAddr("10.0.0.1:4739") }
+func (c *FakeConn) RemoteAddr() net.Addr {
+	if c.Remote != "" {
+		return fakeAddr(c.Remote)
+	}
+	return fakeAddr("10.0.0.2:55555")
+}
 func (c *FakeConn) SetDeadline(t time.Time) error      { return nil }
 func (c *FakeConn) SetReadDeadline(t time.Time) error  { return nil }
 func (c *FakeConn) SetWriteDeadline(t time.Time) error { return nil }
